@@ -221,12 +221,43 @@ func c06Run(c Case) (Result, error) {
 			}
 			_, _ = ts.TrustedAdd(i, s)
 		}
-		if out, err := ts.ThresholdSignature(); err == nil {
-			if ok, _ := gpk.Verify(out, msg, hs); !ok {
-				fail("stateful object returned a signature that fails verification")
-			} else {
-				fail("invalid share went unnoticed")
+		// ... on the first call and on every later call (a failed reconstruction must not be cached)
+		for call := 0; call < 3; call++ {
+			if out, err := ts.ThresholdSignature(); err == nil {
+				if ok, _ := gpk.Verify(out, msg, hs); !ok {
+					fail(fmt.Sprintf("stateful object returned a signature that fails verification (call %d)", call+1))
+				} else {
+					fail("invalid share went unnoticed")
+				}
+			} else if !crypto.IsInvalidInputsError(err) {
+				fail(fmt.Sprintf("invalid well-formed share: unexpected error class on call %d: %v", call+1, err))
 			}
+		}
+		// same with a malformed (but correctly sized) share: errInvalidSignature every time
+		ts3, _ := crypto.NewBLSThresholdSignatureInspector(gpk, pks, in.T, msg, tag)
+		mal := append([]byte{}, shares[0]...)
+		mal[0] &= 0x7F
+		for i := 0; i <= in.T; i++ {
+			s := shares[i]
+			if i == 0 {
+				s = mal
+			}
+			_, _ = ts3.TrustedAdd(i, s)
+		}
+		for call := 0; call < 2; call++ {
+			if _, err := ts3.ThresholdSignature(); !crypto.IsInvalidSignatureError(err) {
+				fail(fmt.Sprintf("malformed share: expected errInvalidSignature on call %d, got %v", call+1, err))
+			}
+		}
+		// a successful reconstruction is stable across calls
+		ts4, _ := crypto.NewBLSThresholdSignatureInspector(gpk, pks, in.T, msg, tag)
+		for i := 0; i <= in.T; i++ {
+			_, _ = ts4.TrustedAdd(i, shares[i])
+		}
+		o1, e1 := ts4.ThresholdSignature()
+		o2, e2 := ts4.ThresholdSignature()
+		if e1 != nil || e2 != nil || !bytes.Equal(o1, o2) {
+			fail("successful threshold signature not stable across calls")
 		}
 		// fewer than t+1 shares
 		ts2, _ := crypto.NewBLSThresholdSignatureInspector(gpk, pks, in.T, msg, tag)
